@@ -197,8 +197,5 @@ pub fn replay(r: &Value) -> bool {
             return matches!(got, Ok(g) if g as i64 == want);
         }
     }
-    for v in &rep.violations {
-        println!("{}: {}", v.signature, v.detail);
-    }
-    rep.violations.is_empty()
+    crate::util::print_replay(&rep)
 }
